@@ -16,7 +16,7 @@ import ast
 from sa.core import register_cache  # noqa: E402
 import re
 
-from sa.core import AnalysisError, attr_chain, enclosing, norm, parents, walk_no_nested
+from sa.core import AnalysisError, attr_chain, enclosing, norm, parents, resolve_callee, walk_no_nested
 
 from . import common
 from .c16 import confined_to_raise
@@ -99,6 +99,17 @@ def _tainted_names(p, f):
     for _ in range(3):
         before = len(names)
         for n in walk_no_nested(f.node):
+            if isinstance(n, ast.Assign) and len(n.targets) == 1 and isinstance(n.targets[0], ast.Tuple) and isinstance(n.value, ast.Name):
+                # `size, i, j = best` where best is only ever a tuple display of that length: component by component
+                defs = [a.value for a in walk_no_nested(f.node) if isinstance(a, ast.Assign) and any(isinstance(t, ast.Name) and t.id == n.value.id for t in a.targets)]
+                tup = [d for d in defs if isinstance(d, ast.Tuple)]
+                if tup and all(isinstance(d, ast.Tuple) or (isinstance(d, ast.Constant) and d.value is None) for d in defs) and all(len(d.elts) == len(n.targets[0].elts) for d in tup) and n.value.id not in f.params:
+                    for k, t in enumerate(n.targets[0].elts):
+                        if any(_size_expr(d.elts[k], names - {n.value.id}) is not None for d in tup):
+                            for x in ast.walk(t):
+                                if isinstance(x, ast.Name) and isinstance(x.ctx, ast.Store):
+                                    names.add(x.id)
+                    continue
             if isinstance(n, ast.Assign) and _size_expr(n.value, names) is not None:
                 for t in n.targets:
                     for x in ast.walk(t):
@@ -329,7 +340,10 @@ def r3(p, rep):
             site = f"{f.module.rel}:{getattr(node, 'lineno', 0)}"
             if isinstance(node, ast.Compare):
                 sides = [node.left] + list(node.comparators)
-                if not any(_size_expr(s) is not None for s in sides):
+                direct = any(_size_expr(s) is not None for s in sides)
+                # a local that holds a length computed by a helper of this module (`size = _contraction_size(..)`)
+                via_helper = (not direct) and any(isinstance(o, (ast.Lt, ast.LtE, ast.Gt, ast.GtE)) for o in node.ops) and any(isinstance(x, ast.Name) and x.id in _helper_sizes(p, f) for s in sides for x in ast.walk(s))
+                if not direct and not via_helper:
                     continue
                 n += 1
                 ordering = any(isinstance(o, (ast.Lt, ast.LtE, ast.Gt, ast.GtE)) for o in node.ops)
@@ -397,6 +411,33 @@ def r3(p, rep):
                             rep.violation("C17.R3", key, site, f"`{norm(node)[:70]}` selects / orders by axis length: which backend calls are emitted then depends on relative sizes")
     if n < 15:
         raise AnalysisError(f"only {n} size-dependent decisions found in the lowering code")
+
+
+def _returns_size(p, g, depth=0):
+    """does the project function g return a value computed from axis lengths (a product / sum / max of .value or .shape)?"""
+    if depth > 2 or not isinstance(g.node, (ast.FunctionDef, ast.AsyncFunctionDef)):
+        return False
+    tn = _tainted_names(p, g)
+    for r in walk_no_nested(g.node):
+        if isinstance(r, ast.Return) and r.value is not None and not isinstance(r.value, (ast.Tuple, ast.List, ast.Dict)):
+            if _size_expr(r.value, tn) is not None:
+                return True
+    return False
+
+
+def _helper_sizes(p, f):
+    """locals of f bound (only) to the result of a project function that returns a length"""
+    cache = p.__dict__.setdefault("_c17_helper_sizes", {})
+    if id(f.node) in cache:
+        return cache[id(f.node)]
+    out = set()
+    for a in walk_no_nested(f.node):
+        if isinstance(a, ast.Assign) and len(a.targets) == 1 and isinstance(a.targets[0], ast.Name) and isinstance(a.value, ast.Call):
+            r = resolve_callee(p, a.value, f.module)
+            if r and r[0] == "func" and in_scope(r[1].module) and _returns_size(p, r[1]):
+                out.add(a.targets[0].id)
+    cache[id(f.node)] = out
+    return out
 
 
 def _cond_only_raises(node):
